@@ -34,6 +34,8 @@ class Profile:
 
     def __init__(self, **kw):
         self.min_types, self.max_types = 2, 6
+        self.p_proc_crowd = 0.0          # a scenario with 10..15 further Ordered user post-processors of pairwise different
+        #                                  Order, all behind the built-in ones: more Ordered processors than sort.Slice sorts by insertion
         self.p_crowd = 0.02              # a scenario with one naming type instantiated 24..36 times: more singletons than any
                                          # batch size or table capacity a maintainer would pick (the App and the ten built-in
                                          # processors come on top)
@@ -123,6 +125,10 @@ def gen_scenario(rng, sid, pf):
         types.append({"ifaces": [], "naming": True, "qual": False, "primary": False,
                       "lazy": rng.random() < 0.15, "aps": False, "init": rng.random() < 0.3, "runner": None,
                       "closer": False, "proc": rng.choice("POUUM"), "methods": [], "fields": [], "cfields": []})
+    if pf.p_proc_crowd and rng.random() < pf.p_proc_crowd:
+        for _ in range(rng.randint(10, 15)):
+            types.append({"ifaces": [], "naming": True, "qual": False, "primary": False, "lazy": False, "aps": False, "init": False,
+                          "runner": None, "closer": False, "proc": "O", "pcrowd": True, "methods": [], "fields": [], "cfields": []})
     comps = []
     used_names = set()
     nbare = rng.randint(*pf.n_bare)
@@ -193,6 +199,15 @@ def gen_scenario(rng, sid, pf):
             if t["proc"]:
                 c["proc"] = {"early": {}, "after": {}, "faults": []}
             comps.append(c)
+
+    # the processors of a processor crowd: pairwise different Orders that no other participant has (equal keys among more
+    # than 12 elements are not kept in place by sort.Slice, and the model's sort is stable)
+    pc = [c for c in comps if types[c["type"]].get("pcrowd")]
+    if pc:
+        taken = {c["ord"] for c in comps if not types[c["type"]].get("pcrowd")}
+        free = [o for o in range(10, 90) if o not in taken]
+        for c, o in zip(pc, rng.sample(free, len(pc))):
+            c["ord"] = o
 
     def regname(ci):
         c = comps[ci]
